@@ -192,7 +192,7 @@ func TestVerifCrash(t *testing.T) {
 	defer w.Flush()
 	r := rand.New(rand.NewSource(seed ^ 0x16c16c16))
 
-	nstores, cycles, quota, nkeys := 2, 10, 1200, 900
+	nstores, cycles, quota, nkeys := 2, 14, 1000, 900 // 14 cycles = 28 opens of one directory (a store that stops reopening after ~20 kills is seen)
 	if tier == "thorough" {
 		nstores, cycles, quota, nkeys = 4, 40, 1500, 2500
 	}
@@ -226,7 +226,7 @@ func TestVerifCrash(t *testing.T) {
 			nacks := 0
 			killed := false
 			idle := false
-			timeout := time.After(120 * time.Second)
+			timeout := time.After(40 * time.Second)
 			doKill := func() {
 				if !killed {
 					killed = true
@@ -315,7 +315,7 @@ func TestVerifCrash(t *testing.T) {
 			vopen := ""
 			recs := []string{}
 			done := false
-			vt := time.After(180 * time.Second)
+			vt := time.After(60 * time.Second)
 		vloop:
 			for {
 				select {
